@@ -7,6 +7,7 @@ import (
 	"fmt"
 	"math"
 	"sort"
+	"strings"
 
 	"github.com/Azbesciak/RealDecisionMaker/lib/logic/biases/anchoring"
 	criteria_concealment "github.com/Azbesciak/RealDecisionMaker/lib/logic/biases/criteria-concealment"
@@ -418,8 +419,11 @@ func e2eDecide(o *Out, r *Rng, c int) {
 	// non-finite numbers (overflow of an exponential gain on a tiny declared range, …) cannot be serialised:
 	// such a response is outside every theorem and oracle (as in c07.go / c09.go)
 	if _, err := json.Marshal(choice); err != nil {
+		if strings.Contains(key, "expFromZero") {
+			o.count("decide:non-finite-output-from-exp")
+			return
+		}
 		o.count("decide:non-finite-output")
-		return
 	}
 	o.count("decide:answered")
 	goResp := L(A("ok"), e2eResponseSX(choice))
